@@ -312,10 +312,11 @@ macro_rules! fb_builder {
 }
 
 macro_rules! custom_builder {
-    ($pt:expr, $min:expr, $ssrc:expr, $arena:expr, $calls:expr, $c:expr) => {{
+    ($pt:expr, $min:expr, $ssrc:expr, $maxc:expr, $arena:expr, $calls:expr, $c:expr) => {{
         let new = &$calls[0];
-        let mut b = CustomBuilder::<$pt, $min, $ssrc> { ssrc: u32_of(&new["ssrc"]), padding: 0, count: 0, payload: &[],
-                                                         some0: new.get("some0").and_then(|x| x.as_bool()).unwrap_or(false) };
+        let mut b = CustomBuilder::<$pt, $min, $ssrc, $maxc> { ssrc: u32_of(&new["ssrc"]), padding: 0, count: 0, payload: &[],
+                                                         some0: new.get("some0").and_then(|x| x.as_bool()).unwrap_or(false),
+                                                         reserve: new.get("reserve").map(usize_of).unwrap_or(0) };
         for c in &$calls[1..] {
             match call_name(c) {
                 "padding" => b.padding = u8_of(&c["v"]),
